@@ -81,4 +81,4 @@ def batches(tier, seed):
 
 
 def search_batches(seed):
-    return [dict(args=["--seed", str(seed * 7919 + 13 + i), "--cases", "60000"], timeout=1800) for i in range(3)]
+    return [dict(args=["--seed", str(seed * 7919 + 13 + i), "--cases", "60000"], env=ENV, timeout=1800) for i in range(3)]
